@@ -315,7 +315,7 @@ pub fn build_cfg_at(kind: &str, rng: &mut Rng, leaf0: usize, fs0: usize, with_sp
             // ovl(ovl,mem) alt(ovl(mem,mem))
             let spec: Vec<&str> = match k {
                 "ovl(mem)" => vec!["mem"],
-                "ovl(mem,mem)" | "alt(ovl(mem,mem))" | "ovl(alt,alt)" | "ovl(ovl,mem)" => vec!["mem", "mem"],
+                "ovl(mem,mem)" | "alt(ovl(mem,mem))" | "ovl(alt,alt)" | "ovl(sub,sub)" | "ovl(ovl,mem)" => vec!["mem", "mem"],
                 "ovl(mem,mem,mem)" => vec!["mem", "mem", "mem"],
                 "ovl(mem,mem,mem,mem)" => vec!["mem", "mem", "mem", "mem"],
                 "ovl(phys,mem)" => vec!["phys", "mem"],
@@ -326,10 +326,20 @@ pub fn build_cfg_at(kind: &str, rng: &mut Rng, leaf0: usize, fs0: usize, with_sp
             let pop_upper = rng.chance(1, 2);
             let contents = gen_layers(rng, spec.len(), pop_upper);
             let mut layer_fs = vec![];
+            let mut sub_args: Vec<String> = vec![];
             for (i, lk) in spec.iter().enumerate() {
                 let l = new_leaf(&mut lines, lk, Who::Both);
                 let f = new_fs(&mut lines, format!("leaf {}", l), Who::Both);
-                if k == "ovl(alt,alt)" {
+                if k == "ovl(sub,sub)" {
+                    // the layers are SUB-DIRECTORY paths of the two filesystems (no altroot in between):
+                    // "root of the layer" and "root of the filesystem the layer lives on" differ
+                    let base = if i == 0 { "/layers/up" } else { "/low" };
+                    lines.push(Line { who: Who::Both, text: format!("op {} create_dir_all {}", f, enc_str(base)), step: usize::MAX, role: "cfg" });
+                    let shifted: Content = contents[i].iter().map(|(key, v)| (format!("{}{}", base, key), v.clone())).collect();
+                    lines.extend(populate_lines(f, &shifted, Who::Both));
+                    sub_args.push(format!("{}:{}", f, enc_str(base)));
+                    layer_fs.push(f);
+                } else if k == "ovl(alt,alt)" {
                     lines.push(Line { who: Who::Both, text: format!("op {} create_dir_all {}", f, enc_str("/lay")), step: usize::MAX, role: "cfg" });
                     let a = new_fs(&mut lines, format!("alt {} {}", f, enc_str("/lay")), Who::Both);
                     lines.extend(populate_lines(a, &contents[i], Who::Both));
@@ -340,7 +350,7 @@ pub fn build_cfg_at(kind: &str, rng: &mut Rng, leaf0: usize, fs0: usize, with_sp
                 }
             }
             abstract_content = union(&contents);
-            let layer_args: Vec<String> = layer_fs.iter().map(|f| format!("{}:s", f)).collect();
+            let layer_args: Vec<String> = if k == "ovl(sub,sub)" { sub_args.clone() } else { layer_fs.iter().map(|f| format!("{}:s", f)).collect() };
             if k == "ovl(ovl,mem)" {
                 // inner overlay over the first two layers' leaves, outer over (inner, extra empty mem)
                 let inner = new_fs(&mut lines, format!("ovl {}", layer_args.join(" ")), Who::Both);
@@ -1330,9 +1340,9 @@ fn short_list(ls: &str) -> String {
 pub fn tree_spec_for(prop: &str) -> TreeSpec {
     let all_cfgs = vec![
         "mem", "phys", "alt(mem)", "alt(phys)", "alt(alt(mem))", "ovl(mem)", "ovl(mem,mem)", "ovl(mem,mem,mem)", "ovl(phys,mem)", "ovl(mem,phys)",
-        "alt(ovl(mem,mem))", "ovl(alt,alt)", "ovl(ovl,mem)",
+        "alt(ovl(mem,mem))", "ovl(alt,alt)", "ovl(sub,sub)", "ovl(ovl,mem)",
     ];
-    let ovl_cfgs = vec!["ovl(mem)", "ovl(mem,mem)", "ovl(mem,mem,mem)", "ovl(mem,mem,mem,mem)", "ovl(phys,mem)", "ovl(mem,phys)", "ovl(phys,phys)", "ovl(ovl,mem)"];
+    let ovl_cfgs = vec!["ovl(mem)", "ovl(mem,mem)", "ovl(mem,mem,mem)", "ovl(mem,mem,mem,mem)", "ovl(phys,mem)", "ovl(mem,phys)", "ovl(phys,phys)", "ovl(sub,sub)", "ovl(ovl,mem)"];
     match prop {
         "C01" => TreeSpec {
             prop: prop.into(),
@@ -1408,7 +1418,7 @@ pub fn tree_spec_for(prop: &str) -> TreeSpec {
         },
         "C10" => TreeSpec {
             prop: prop.into(),
-            configs: vec!["ovl(mem,mem)", "ovl(mem,mem,mem)", "ovl(mem,mem,mem,mem)", "ovl(phys,mem)", "ovl(mem,phys)", "ovl(ovl,mem)"],
+            configs: vec!["ovl(mem,mem)", "ovl(mem,mem,mem)", "ovl(mem,mem,mem,mem)", "ovl(phys,mem)", "ovl(mem,phys)", "ovl(sub,sub)", "ovl(alt,alt)", "alt(ovl(mem,mem))", "ovl(ovl,mem)"],
             corr_level: 0,
             spec_results: false,
             spec_snapshots: true,
